@@ -6,7 +6,7 @@ import AsyncsshModel.Model.Config
   two-pass flow of `connection._connect` (connection.py:476-483).
 
   The model is faithful to the code, including where the code deviates from OpenSSH (expansion at the end
-  of every `parse()` call, directory-order globbing, the restart of the final pass); `Props/C18.lean`
+  of every `parse()` call, the restart of the final pass); `Props/C18.lean`
   proves what holds and exhibits witnesses for what does not.
 -/
 namespace AsyncsshModel.Config
